@@ -414,6 +414,15 @@ class Effects(object):
         if tag == 'elem':
             return inside(self.absval(t[1], ctx))
         if tag == 'item':
+            # position-sensitive projection: item i of a tuple literal, or of an element of a comprehension / list whose elements are tuple literals
+            src = t[1]
+            i = t[2]
+            if isinstance(i, int):
+                if src[0] == 'tuple' and 0 <= i < len(src[1]) and not any(x[0] == 'star' for x in src[1]):
+                    return self.absval(src[1][i], ctx)
+                if src[0] == 'elem' and src[1][0] == 'comp' and src[1][2][0] == 'tuple' and 0 <= i < len(src[1][2][1]) \
+                        and not any(x[0] == 'star' for x in src[1][2][1]):
+                    return self.absval(src[1][2][1][i], ctx)
             return inside(self.absval(t[1], ctx))
         if tag in ('tuple', 'list', 'set'):
             return container_of([self.absval(x[1] if x[0] == 'star' else x, ctx) for x in t[1]])
